@@ -12,8 +12,11 @@ use std::collections::BTreeMap;
 
 pub struct C04;
 
-const KINDS: [(&str, u64); 5] = [
+const KINDS: [(&str, u64); 8] = [
     ("header-only", 2),                 // VALID_TREE, no data
+    ("header-only", 1),                 // VALID_HEADER
+    ("header-only-failed", 2 | 64),     // header of a descendant of an invalid block (FAILED_CHILD)
+    ("header-only-failed", 2 | 32),     // header marked FAILED_VALID
     ("stale-unconnected-data", 3 | 8),  // VALID_TRANSACTIONS | HAVE_DATA
     ("failed-data", 3 | 8 | 32),        // … | FAILED_VALID
     ("failed-child-data", 3 | 8 | 64),  // … | FAILED_CHILD
@@ -45,6 +48,54 @@ fn competitor_block(tag: usize, h: u64, rng: &mut Rng) -> BlockDesc {
             ],
             locktime: 0xC0FFEE,
         }],
+    }
+}
+
+/// Competitor records that the program (as it is) correctly ignores: header-only records anywhere, and
+/// data-bearing stale blocks at occupied heights whose key sorts before the active block's.
+/// Used by other properties to make the index non-trivial without touching C04's known defect.
+pub fn add_ignored_competitors(scn: &mut Scenario, rng: &mut Rng) {
+    let t = scn.base_height + scn.chain.len() as u64 - 1;
+    let active = build_all(scn).active;
+    let mut tag = 500usize;
+    for _ in 0..rng.usize(1, 4) {
+        let header_only = rng.coin() || scn.chain.len() < 2;
+        let hh = if header_only && rng.chance(1, 3) { t + rng.range(1, 3) } else { rng.range(scn.base_height + 1, t.max(scn.base_height + 1)).min(t) };
+        if hh <= scn.base_height {
+            continue;
+        }
+        let mut b = competitor_block(tag, hh, rng);
+        let status = if header_only { *rng.pick(&[2u64, 1, 66, 34]) } else { 3 | 8 };
+        scn.extras.push(ExtraBlock {
+            block: b.clone(),
+            kind: if header_only { "header-only".into() } else { "stale-unconnected-data".into() },
+            index: Some(ExtraIndex { height: hh, status }),
+            parent_height: Some(hh - 1),
+            parent_extra: None,
+        });
+        let xi = scn.extras.len() - 1;
+        if !header_only {
+            // grind until the key sorts BEFORE the active block's key (the active record then wins the height)
+            let act = active[(hh - scn.base_height) as usize].hash;
+            let mut ok = false;
+            for _ in 0..200 {
+                if build_all(scn).extras[xi].hash < act {
+                    ok = true;
+                    break;
+                }
+                b.nonce = b.nonce.wrapping_add(1);
+                scn.extras[xi].block = b.clone();
+            }
+            if !ok {
+                scn.extras.pop();
+                continue;
+            }
+            for l in scn.layouts.iter_mut() {
+                let f = rng.usize(0, l.files.len() - 1);
+                l.files[f].segs.push(Seg::Extra { i: xi });
+            }
+        }
+        tag += 1;
     }
 }
 
@@ -146,7 +197,7 @@ impl Prop for C04 {
                 None => continue,
             };
             let beyond = ix.height > t;
-            if x.kind == "header-only" {
+            if x.kind.starts_with("header-only") {
                 st.probe(if beyond { "header_only_beyond_tip" } else { "header_only_at_occupied" });
             } else if beyond {
                 st.probe("competitor_beyond_tip");
